@@ -25,6 +25,10 @@ type brokerOps struct {
 	accept func(side byte, id uint32) error // accept (+ serve one exchange)
 	close  func()
 	bound  time.Duration // documented bound for an unmatched call
+	// gRPC kinds: an acceptor that announces its listener and gives up at once (listener closed, socket removed), and a
+	// dial made with the caller's own option grpc.WithBlock()
+	acceptGiveUp func(side byte, id uint32) error
+	dialBlock    func(side byte, id uint32) error
 }
 
 func newBrokerOps(x *vs.Exec, kind string) (*brokerOps, error) {
@@ -123,6 +127,23 @@ func newBrokerOps(x *vs.Exec, kind string) (*brokerOps, error) {
 				return nil
 			},
 			close: func() { pr.gc.Close(); pr.srv.Stop() },
+			acceptGiveUp: func(s byte, id uint32) error {
+				b, _ := pr.side(s)
+				ln, err := b.Accept(id)
+				if err != nil {
+					return err
+				}
+				return ln.Close()
+			},
+			dialBlock: func(s byte, id uint32) error {
+				b, _ := pr.side(s)
+				cc, err := b.DialWithOptions(id, grpc.WithBlock())
+				if err != nil {
+					return err
+				}
+				x.OnCleanup(func() { cc.Close() })
+				return cc.Close()
+			},
 		}, nil
 	}
 	return nil, fmt.Errorf("unknown broker kind %q", kind)
@@ -169,11 +190,17 @@ func init() {
 				if ev[0] == 'A' {
 					op = ops.accept
 				}
+				if ev[0] == 'G' && ops.acceptGiveUp != nil { // G<side><id>: accept announced, then given up at once
+					op = ops.acceptGiveUp
+				}
+				if ev[0] == 'B' && ops.dialBlock != nil { // B<side><id>: a dial with the caller's own grpc.WithBlock()
+					op = ops.dialBlock
+				}
 				if ev[0] == 'X' { // peer closes mid-negotiation: X<side><bytes of the id written before closing>
 					nb := atoi(ev[2:])
 					op = func(byte, uint32) error { return ops.raw(side, nb) }
 				}
-				blocking := !(ev[0] == 'A' && ops.kind != "mux") // gRPC AcceptAndServe serves until close
+				blocking := !(ev[0] == 'A' && ops.kind != "mux") // gRPC AcceptAndServe serves until close (G and B return by themselves)
 				if closed {
 					blocking = true // ... and a call issued after or while the connection is closed must return by itself
 				}
@@ -308,9 +335,21 @@ func init() {
 		ConformWait: 60 * time.Second,
 		Instances: func(tier string) []explore.Params {
 			var out []explore.Params
+			if tier == "blockdial" {
+				// the acceptor announced its listener and gave up at once; the dialler then dials with grpc.WithBlock() among its own
+				// options: the dial returns (with an error) in bounded time, and the broker still serves a fresh pair
+				// (the other order is not asked: a blocking dial whose first attempt reaches the listener just before it is closed
+				// gets a temporary error first, and gRPC's WithBlock then waits for a state change that never comes — the caller's
+				// own choice of "block until connected" without a deadline, not the broker's doing)
+				for _, h := range []string{"Gp7,+500,Bh7", "Gh7,+500,Bp7", "Gp7,+500,Bh7,+500,Dh7", "Gh7,+500,Bp7,+500,Bp7"} {
+					out = append(out, explore.Params{"kind": "grpc", "hist": h})
+				}
+				return out
+			}
 			evs := []string{"Dh7", "Dp7", "Ah7", "Ap7"}
 			gaps := []string{"", "+5000,", "+2000,"}
 			for _, kind := range []string{"mux", "grpc"} {
+
 				for _, a := range evs {
 					out = append(out, explore.Params{"kind": kind, "hist": a})
 				}
